@@ -124,9 +124,9 @@ def cases_for(tier):
             for m in (0, 1):
                 for script in ('quadobj', 'noquadobj'):
                     if tier == 'thorough' or n < 3:
-                        combos = [(r, f) for r in ('env', 'arg') for f in ('text', 'binary')] + [('file', 'text'), ('filenl', 'binary'), ('mpopts', 'text')]
+                        combos = [(r, f) for r in ('env', 'arg') for f in ('text', 'binary')] + [('file', 'text'), ('filenl', 'binary'), ('mpopts', 'text'), ('query', 'text'), ('query-e', 'text')]
                     else:
-                        combos = [('env', 'text'), ('arg', 'binary'), ('file', 'text'), ('mpopts', 'binary')]
+                        combos = [('env', 'text'), ('arg', 'binary'), ('file', 'text'), ('mpopts', 'binary'), ('query-e', 'text')]
                     for route, fmt in combos:
                         out.append((tuple(spec), k, m, route, fmt, script))
     return out
@@ -239,10 +239,16 @@ def matches(model, indices, dump):
 def run_case(binary, wd, case):
     spec, k, m, route, fmt, script = case
     model = make_model(spec)
-    env_opts = None; args = ('-AMPL',)
+    env_opts = None; args = ('-AMPL',); pre = ()
     if route == 'env':
         toks = ([] if k is None else ['objno=%d' % k]) + (['multiobj=1'] if m else [])
         env_opts = {'vdriver_options': ' '.join(toks)}
+    elif route in ('query', 'query-e'):
+        # every assignment followed by a query of the same option ("name=?" prints the value and leaves it unchanged), with
+        # the option echo on / suppressed by the -e switch
+        toks = ([] if k is None else ['objno=%d' % k, 'objno=?']) + ['multiobj=%d' % m, 'multiobj=?', 'obj:no=?']
+        env_opts = {'vdriver_options': ' '.join(toks)}
+        if route == 'query-e': pre = ('-e',)
     elif route == 'mpopts':
         # the solver-independent variable mp_options, value syntax without '=': "objno 2"
         toks = ([] if k is None else ['objno %d' % k]) + ['multiobj %d' % m]
@@ -258,7 +264,7 @@ def run_case(binary, wd, case):
     else:
         args = ('-AMPL',) + (() if k is None else ('obj:no=%d' % k,)) + ('obj:multi=%d' % m,)
     kw = {'nl_bytes': nl_binary(model)} if fmt == 'binary' else {'nl_text': model.nl()}
-    r = vdriverlib.run(binary, wd, args=args, script=SCRIPTS[script], env_opts=env_opts, **kw)
+    r = vdriverlib.run(binary, wd, args=args, script=SCRIPTS[script], env_opts=env_opts, pre=pre, **kw)
     return model, r
 
 
@@ -468,7 +474,7 @@ def _main(chk, tier, binary):
     vcheck.finalize_classes(chk)
     chk.set('rule', 'exhaustive: NL files with n in 0..3 objectives, objective i = {min,max} x {linear, constant only, '
             '|x0|+i+linear, (i+1)x0^2+linear} (%s) x objno {unset, 0..n+1} x multiobj {0,1} x {objno=/multiobj= in '
-            'vdriver_options, obj:no=/obj:multi= on the command line, objno=/multiobj= in an option file ending with / without a newline, "objno K" in mp_options} x {text, binary NL} x {quadratic objective accepted, '
+            'vdriver_options, obj:no=/obj:multi= on the command line, objno=/multiobj= in an option file ending with / without a newline, "objno K" in mp_options, assignments followed by name=? queries with / without the -e switch} x {text, binary NL} x {quadratic objective accepted, '
             'not accepted}%s; one driver process per case. Oracle: reference selection function + value comparison of each '
             'delivered objective (following aux variables through AbsConstraint / quadratic constraints / fixed variables) '
             'with the NL reference evaluator at %d points separating span{1,x0,x1,|x0|,x0^2}; `objno N code` line. '
@@ -476,7 +482,7 @@ def _main(chk, tier, binary):
             % ('all combinations' if tier == 'thorough' else 'all combinations for n<=2; for n=3 all 64 shape triples with alternating senses',
                '' if tier == 'thorough' else ' (for n=3 route and format are paired: env+text, arg+binary)', len(POINTS)))
     chk.set('bounds', {'n': [0, 3], 'shapes': SHAPES, 'senses': SENSES, 'objno': 'unset, 0..n+1', 'multiobj': [0, 1],
-                       'routes': ['env', 'arg', 'file', 'filenl', 'mpopts'], 'formats': ['text', 'binary'], 'scripts': sorted(SCRIPTS)})
+                       'routes': ['env', 'arg', 'file', 'filenl', 'mpopts', 'query', 'query-e'], 'formats': ['text', 'binary'], 'scripts': sorted(SCRIPTS)})
     chk.assumptions += [
         '.sol line `objno N code`: N is zero-based (sol.h writes objno_used()-1; ASL convention obj_no), so "objective k used" '
         'is N = k-1 and "no objective used" is N = -1; demanded: N = k-1 in single-objective mode, N = -1 when nothing was '
